@@ -291,6 +291,19 @@ class Interp:
             return False
         if isinstance(b, (Inst, ListV, DictV)) and isinstance(a, K) and a.v is None:
             return False
+        # containers against values of another kind: a list / tuple equals only a list / tuple, a dict only a dict, a set only a set
+        for x, y in ((a, b), (b, a)):
+            if isinstance(x, (ListV, DictV, SetV)) and isinstance(y, K):
+                if isinstance(x, ListV) and isinstance(y.v, (list, tuple)):
+                    try:
+                        return self.models.to_const(x) == y.v
+                    except self.models.NotConst:
+                        return None if len(x.items) == len(y.v) else False
+                if isinstance(x, DictV) and isinstance(y.v, dict) or isinstance(x, SetV) and isinstance(y.v, (set, frozenset)):
+                    return None
+                return False
+            if isinstance(x, ListV) and isinstance(y, (DictV, SetV)) or isinstance(x, DictV) and isinstance(y, SetV):
+                return False
         if isinstance(a, ClassRef) and isinstance(b, ClassRef):
             return a is b or (a.name == b.name and a.module == b.module and a.node is b.node)
         if isinstance(a, (Builtin, ClassRef, Ext)) and isinstance(b, (Builtin, ClassRef, Ext)):
@@ -1794,6 +1807,106 @@ class Interp:
         c = self.ev(st.test, fr)
         if not self.truth(c, st):
             raise RaiseEx('AssertionError', ast.unparse(st.test)[:80], st)
+
+    # ---- structural pattern matching (PEP 634)
+    def st_Match(self, st, fr):
+        subject = self.ev(st.subject, fr)
+        for case in st.cases:
+            if self.match_pattern(case.pattern, subject, fr, st) and (case.guard is None or self.truth(self.ev(case.guard, fr), st)):
+                self.block(case.body, fr)
+                return
+
+    def match_pattern(self, p, v, fr, node):
+        if isinstance(p, ast.MatchValue):
+            return self.truth(self.cmp(ast.Eq(), v, self.ev(p.value, fr), node), node)
+        if isinstance(p, ast.MatchSingleton):
+            return isinstance(v, K) and v.v is p.value
+        if isinstance(p, ast.MatchAs):
+            if p.pattern is not None and not self.match_pattern(p.pattern, v, fr, node):
+                return False
+            if p.name is not None:
+                self.assign(ast.Name(id=p.name, ctx=ast.Store()), v, fr)
+            return True
+        if isinstance(p, ast.MatchOr):
+            return any(self.match_pattern(q, v, fr, node) for q in p.patterns)
+        if isinstance(p, ast.MatchSequence):
+            if isinstance(v, K) and isinstance(v.v, (list, tuple)):
+                items = [K(x) for x in v.v]
+            elif isinstance(v, ListV):
+                items = list(v.items)
+            elif isinstance(v, K) or isinstance(v, (Inst, DictV, SetV)):
+                return False                    # str / bytes / bytearray, numbers, None, mappings, sets and plain objects are not sequences
+            else:
+                raise Fail(f'sequence pattern over {v!r} line {node.lineno}')
+            star = [i for i, q in enumerate(p.patterns) if isinstance(q, ast.MatchStar)]
+            if not star:
+                return len(items) == len(p.patterns) and all(self.match_pattern(q, x, fr, node) for q, x in zip(p.patterns, items))
+            i = star[0]
+            after = len(p.patterns) - i - 1
+            if len(items) < len(p.patterns) - 1:
+                return False
+            if not all(self.match_pattern(q, x, fr, node) for q, x in zip(p.patterns[:i], items[:i])):
+                return False
+            if after and not all(self.match_pattern(q, x, fr, node) for q, x in zip(p.patterns[i + 1:], items[len(items) - after:])):
+                return False
+            if p.patterns[i].name is not None:
+                self.assign(ast.Name(id=p.patterns[i].name, ctx=ast.Store()), ListV(items[i:len(items) - after]), fr)
+            return True
+        if isinstance(p, ast.MatchMapping):
+            if not isinstance(v, DictV):
+                if isinstance(v, (K, ListV, Inst, SetV)):
+                    return False
+                raise Fail(f'mapping pattern over {v!r} line {node.lineno}')
+            used = []
+            for kx, q in zip(p.keys, p.patterns):
+                key = self.dkey(self.ev(kx, fr))
+                if key not in v.d or not self.match_pattern(q, v.d[key], fr, node):
+                    return False
+                used.append(key)
+            if p.rest is not None:
+                rest = DictV()
+                for k_, x in v.d.items():
+                    if k_ not in used:
+                        rest.d[k_] = x
+                        rest.keyobj[k_] = v.keyobj[k_]
+                self.assign(ast.Name(id=p.rest, ctx=ast.Store()), rest, fr)
+            return True
+        if isinstance(p, ast.MatchClass):
+            cls = self.ev(p.cls, fr)
+            if not self.truth(self.models.do_isinstance(self, v, cls, node), node):
+                return False
+            if p.patterns:
+                single = isinstance(cls, Builtin) and cls.name in ('bool', 'bytearray', 'bytes', 'dict', 'float', 'frozenset', 'int', 'list', 'set', 'str', 'tuple')
+                if single:
+                    if len(p.patterns) != 1:
+                        raise RaiseEx('TypeError', f'{cls.name}() accepts 1 positional sub-pattern', node)
+                    if not self.match_pattern(p.patterns[0], v, fr, node):
+                        return False
+                else:
+                    try:
+                        names = self.iterate(self.getattr(cls, '__match_args__', node))
+                    except RaiseEx:
+                        raise RaiseEx('TypeError', 'class pattern with positional sub-patterns on a class without __match_args__', node)
+                    if names is None or len(p.patterns) > len(names):
+                        raise RaiseEx('TypeError', 'too many positional sub-patterns', node)
+                    for nm, q in zip(names, p.patterns):
+                        try:
+                            x = self.getattr(v, nm.v, node)
+                        except RaiseEx:
+                            return False
+                        if not self.match_pattern(q, x, fr, node):
+                            return False
+            for nm, q in zip(p.kwd_attrs, p.kwd_patterns):
+                try:
+                    x = self.getattr(v, nm, node)
+                except RaiseEx as e:
+                    if e.kind != 'AttributeError':
+                        raise
+                    return False
+                if not self.match_pattern(q, x, fr, node):
+                    return False
+            return True
+        raise Fail(f'unsupported pattern {type(p).__name__} line {node.lineno}')
 
     def st_If(self, st, fr):
         c = self.ev(st.test, fr)
